@@ -911,11 +911,35 @@ def factors(t):
             return [(z3.RealVal(-1), 1)] + factors(t.children()[0])
         if k == z3.Z3_OP_TO_REAL:
             return [(t, 1)]
+        if k == z3.Z3_OP_ITE and t.sort() == RS:
+            # masks: ite(c, 0, x) = ite(c, 0, 1) * x  and  ite(c, x, 0) = ite(c, 1, 0) * x
+            c, x, y = t.children()
+            zero = lambda u: z3.is_rational_value(u) and u.numerator_as_long() == 0
+            if zero(x) and not zero(y):
+                return [(z3.If(c, z3.RealVal(0), z3.RealVal(1)), 1)] + factors(y)
+            if zero(y) and not zero(x):
+                return [(z3.If(c, z3.RealVal(1), z3.RealVal(0)), 1)] + factors(x)
     return [(t, 1)]
 
 
+def is_mask(t):
+    if not (z3.is_app(t) and t.decl().kind() == z3.Z3_OP_ITE and t.sort() == RS):
+        return False
+    c, x, y = t.children()
+    vals = []
+    for u in (x, y):
+        if not z3.is_rational_value(u):
+            return False
+        vals.append(u.numerator_as_long() if u.denominator_as_long() == 1 else None)
+    return sorted(vals) == [0, 1]
+
+
 def product(fs):
-    num = [f for f, p in fs if p > 0]
+    """product of factors [(term, +-1)].  0/1 masks are kept as separate multiplicative factors in front of the
+    fraction: mask * (N / D)  -- regrouping them into the numerator would change the value where D = 0
+    (z3: 0 * (N/0) = 0 but (0*N)/0 is an arbitrary number)"""
+    masks = [f for f, p in fs if p > 0 and is_mask(f)]
+    num = [f for f, p in fs if p > 0 and not is_mask(f)]
     den = [f for f, p in fs if p < 0]
     n = None
     for f in num:
@@ -926,7 +950,9 @@ def product(fs):
         d = None
         for f in den:
             d = f if d is None else d * f
-        return n / d
+        n = n / d
+    for m in masks:
+        n = m * n
     return n
 
 
@@ -971,7 +997,7 @@ class SumNormalizer:
         for a in self.atoms:
             if a["dim"] is dim:
                 b2 = z3.substitute(a["body"], (a["j"], j))
-                r = smt.prove(b2 == body, self.facts(z3.And(b2 == body)) + [j >= 0, j < dim.n], tier="quick", timeout_ms=2000, fallback=False)
+                r = self.decide(b2 == body, self.facts(z3.And(b2 == body)) + [j >= 0, j < dim.n], "merge-sums", timeout_ms=2000, fallback=False)
                 if r.status == core.PROVED:
                     return a["const"]
         # the canonical atom is a function of the free index variables of its body (so that an enclosing sum
